@@ -27,6 +27,7 @@ var sqlQuick = []Mix{
 	{Gen: "novel", Dict: "sqlext", N: 150000},
 	{Gen: "wl", N: 100000},
 	{Gen: "longtok", N: 20000},
+	{Gen: "nulpad"},
 }
 
 var sqlThorough = []Mix{
@@ -40,6 +41,7 @@ var sqlThorough = []Mix{
 	{Gen: "novel", Dict: "sqlext", N: 2000000},
 	{Gen: "wl", N: 1500000},
 	{Gen: "longtok", N: 300000},
+	{Gen: "nulpad"},
 }
 
 func sqlPlan(quick, thorough []Mix) func(string, uint64) []core.Unit {
@@ -121,7 +123,7 @@ func c16() *core.Check {
 		Gen:  sqlGen,
 		One: func(w *core.Worker, c core.Case) {
 			s := c.In
-			if len(s) > 1<<16 {
+			if len(s) > 1<<17 {
 				return
 			}
 			w.Eval(1)
@@ -465,7 +467,7 @@ func c12() *core.Check {
 		},
 		One: func(w *core.Worker, c core.Case) {
 			s := c.In
-			if len(s) > 1<<16 {
+			if len(s) > 1<<17 {
 				return
 			}
 			w.Eval(1)
